@@ -4,7 +4,7 @@
    parser).  Model of the code as it is now: CsvModel.v (after fix: 598f817 F21, e6b2b49 F24, c131fe5 F23, 04a3ed1 F25).
    Two statements are still false of the code (F18, F22): the full statement stays as a Definition in CsvProofs.v,
    repeated in the comment, with T_..._refuted and a theorem that says what happens instead on the whole class. *)
-From BS Require Import Base CsvSpec CsvSpecProofs CsvModel CsvWriterProofs CsvReaderProofs CsvStreamProofs CsvProofs.
+From BS Require Import Base CsvSpec CsvSpecProofs CsvModel CsvWriterProofs CsvReaderProofs CsvStreamProofs CsvTotalProofs CsvStreamTotal CsvProofs.
 Local Open Scope N_scope.
 
 (* ---- the specification is coherent: the reference parser inverts every rendering of every table ---- *)
@@ -111,6 +111,18 @@ Theorem T_C09_stream_eq_mem : forall K sep chs final t text keys, (0 < K)%nat ->
   csv_load_stream K sep keys text = csv_load sep keys (stream_payload K text).
 Proof. exact reader_stream_eq_mem. Qed.
 Print Assumptions T_C09_stream_eq_mem.
+
+(* ---- fuel suffices, on ARBITRARY text (not only RFC 4180 renderings): both loaders answer with rows or with a
+   catchable ParsingError / InvalidOptions (clean); in particular never OutOfFuel (every line consumes at least one
+   byte: no hang), never the model's UB outcome (no read outside the decoded buffer during in-place unescaping),
+   never std::out_of_range from std::vector::at ---- *)
+Theorem T_C09_load_total : forall sep keys text, clean (csv_load sep keys text).
+Proof. exact csv_load_total. Qed.
+Print Assumptions T_C09_load_total.
+
+Theorem T_C09_load_stream_total : forall K sep keys text, (0 < K)%nat -> clean (csv_load_stream K sep keys text).
+Proof. exact csv_load_stream_total. Qed.
+Print Assumptions T_C09_load_stream_total.
 
 (* ---- F18: writer side of the width check.  Full statement (writer_width_statement):
      forall k sep hdr rows, allowed sep -> ragged rows -> csv_save k sep (map (with_keys hdr) rows) = Err OutOfRange
